@@ -205,7 +205,9 @@ type GateState struct {
 
 var _ state.CoreState = (*GateState)(nil)
 
-func keyOfPtr(p resource.Pointer) model.Key { return model.Key{NS: p.Namespace(), Typ: p.Type(), ID: p.ID()} }
+func keyOfPtr(p resource.Pointer) model.Key {
+	return model.Key{NS: p.Namespace(), Typ: p.Type(), ID: p.ID()}
+}
 
 func (g *GateState) record(c Call) {
 	g.s.mu.Lock()
